@@ -167,7 +167,7 @@ def check_request_url(ctx, scheme, server, host, root, path, query, odd=False):
 
 
 # ------------------------------------------------------------------ replace()
-USERS = [None, ("u", None), ("u", "p"), ("u", "p@ss:w"), ("u", ""), ("us.er", "x*y")]
+USERS = [None, ("u", None), ("u", "p"), ("u", "p@ss:w"), ("u", ""), ("us.er", "x*y"), ("admin", "admin"), ("bob1", "bob"), ("h", "h")]  # also: password text inside the user / host text
 RHOSTS = ["h", "example.com", "10.0.0.1", "[::1]", "[2001:db8::1]"]
 RPORTS = [None, 80, 8080, 0]
 NEW = {"scheme": ["https", "ws"], "path": ["/n", "/n/é", ""], "query": ["", "k=v&k=w"], "fragment": ["", "top"],
@@ -254,7 +254,8 @@ def check_repr(ctx, u):
         want["password"] = "********"
         if masked != want:
             ctx.violation("repr|masking-changed-other-components", case, f"{r}: {masked} vs {want}")
-        if len(pw) >= 3 and set(pw) != {"*"} and pw in r.replace("********", ""):
+        elsewhere = "".join(str(want[k] or "") for k in ("scheme", "username", "hostname", "path", "query", "fragment"))
+        if len(pw) >= 3 and set(pw) != {"*"} and pw not in elsewhere and pw in r.replace("********", ""):
             ctx.violation("repr|password-visible", case, r)
     else:
         if r != f"URL({str(u)!r})":
